@@ -5,6 +5,7 @@ package adapt
 import (
 	"bytes"
 	"fmt"
+	"io"
 
 	"gitlab.com/gomidi/midi/v2/smf"
 	"gitlab.com/gomidi/midi/v2/zverif/ref/smfref"
@@ -14,8 +15,18 @@ import (
 func Division(tf smf.TimeFormat) (uint16, error) {
 	switch v := tf.(type) {
 	case smf.MetricTicks:
+		if v > 0x7FFF {
+			return 0, fmt.Errorf("time format is %d metric ticks: more than the 15 bits of the division word hold", uint16(v))
+		}
 		return uint16(v), nil
 	case smf.TimeCode:
+		// the kind of the time format is part of the value: a time code with a frame rate that is
+		// none of the four SMPTE rates is not what any division word with bit 15 set stands for
+		switch v.FramesPerSecond {
+		case 24, 25, 29, 30:
+		default:
+			return 0, fmt.Errorf("time format is a time code with %d frames per second and %d subframes", v.FramesPerSecond, v.SubFrames)
+		}
 		return uint16(256-int(v.FramesPerSecond))<<8 | uint16(v.SubFrames), nil
 	default:
 		return 0, fmt.Errorf("time format %T (%v)", tf, tf)
@@ -95,15 +106,22 @@ type NopLogger struct{}
 
 func (NopLogger) Printf(format string, vals ...interface{}) {}
 
-// ReadOpts returns the read options for an input: for every second input (by content) the
-// behaviour-neutral smf.Log option with a discarding logger.
+// ReadOpts returns the read options for an input: for two inputs of three (by content) the
+// behaviour-neutral smf.Log option, with a discarding logger of the harness or with the library's
+// own logger (smf.LogTo) writing to io.Discard.
 func ReadOpts(input []byte) []smf.ReadOption {
 	var h uint32 = 2166136261
 	for _, b := range input {
 		h = (h ^ uint32(b)) * 16777619
 	}
-	if len(input) > 0 && h&1 == 1 {
+	if len(input) == 0 {
+		return nil
+	}
+	switch (h >> 8) % 3 {
+	case 1:
 		return []smf.ReadOption{smf.Log(NopLogger{})}
+	case 2:
+		return []smf.ReadOption{smf.Log(smf.LogTo(io.Discard))}
 	}
 	return nil
 }
